@@ -34,7 +34,7 @@ def run(tier='quick'):
                         'on timing / event / table / assigned column of the parsed triggers)', floor=25)
     P3 = chk.rule('P3', 'both chain walkers start at the no-successor sentinel the writers store, test the tail '
                         'lookup against end() before using it (a throw, not an assert), and add_back appends '
-                        'behind the current tail inside one transaction', floor=5)
+                        'behind the current tail inside one transaction; the walk direction matches the insertion side', floor=8)
     chk.assume('SQLite fires the triggers as declared; the relinking they perform is correct (not decided)')
     chk.note('not decided: that listings return every item exactly once in the documented order after '
              'arbitrary histories - this needs the semantics of the triggers and UPDATE statements')
@@ -121,6 +121,65 @@ def run(tier='quick'):
             chk.violation(P3, '%s|tail lookup unchecked' % _short(qn), locstr(f.node),
                           inst + ': no if (curr == ...end()) throw/return found (an assert is compiled out): a chain '
                           'without last element dereferences end()')
+    # walk direction <-> insertion side: the maps are keyed by the *successor* column, so a walk
+    # that starts at the tail sentinel visits the chain backwards and must prepend
+    from .. import rowmap
+    rowmap.install_program(prog)
+    for qn in (V2 + 'playlist_table::root_ids', V2 + 'playlist_table::child_ids',
+               V2 + 'playlist_entity_table::get_for_list'):
+        fs = [f for f in prog.by_name(qn) if f.body is not None and not f.is_pattern]
+        if not fs:
+            raise AnalysisBroken('anchor function %s not found' % qn)
+        f = fs[0]
+        chk.analysed(f)
+        sms = [sm for sm in rowmap.site_maps(prog, cg, eff, f) if sm.stmt.kind == 'select' and sm.site.sink is not None]
+        keycol = None
+        for sm in sms:
+            lam = strip(sm.site.sink)
+            pnames = []
+            for x in walk(lam):
+                if x.get('kind') == 'CXXMethodDecl' and x.get('name') == 'operator()':
+                    pnames = [p.get('name') for p in children(x) if p.get('kind') == 'ParmVarDecl']
+                    break
+            for x in walk(lam):
+                if x.get('kind') == 'CXXOperatorCallExpr':
+                    c = children(x)
+                    if (strip(c[0]).get('referencedDecl') or {}).get('name') == 'operator[]' and len(c) > 2 and \
+                            'map' in (strip(c[1]).get('type') or ''):
+                        k = strip(c[2], explicit=True)
+                        kn = (k.get('referencedDecl') or {}).get('name')
+                        if kn in pnames and pnames.index(kn) < len(sm.out):
+                            keycol = sm.out[pnames.index(kn)][1]
+        if keycol is None:
+            chk.unknown(P3, _short(qn), 'the map the chain is loaded into, or its key column, was not recognised')
+            continue
+        # the walker: this function or the repository function the map is handed to
+        walker = f
+        for e in cg.edges(f):
+            for t in e.targets:
+                if t.body is not None and any(x.get('kind') in ('DoStmt', 'WhileStmt') for x in walk(t.body)) and \
+                        t.cls is None and 'map' in (t.type or ''):
+                    walker = t
+        ins = set()
+        for x in walk(walker.body):
+            if x.get('kind') in ('DoStmt', 'WhileStmt', 'ForStmt'):
+                for y in walk(x):
+                    if y.get('kind') == 'CXXMemberCallExpr':
+                        nm = strip(children(y)[0]).get('name')
+                        if nm in ('push_front', 'push_back', 'emplace_front', 'emplace_back', 'insert'):
+                            ins.add(nm)
+        succ_keyed = keycol.lower().startswith('next')
+        want = {'push_front', 'emplace_front'} if succ_keyed else {'push_back', 'emplace_back'}
+        inst = '%s: chain loaded into a map keyed by %s, walked from the %s, elements %s' % (
+            _short(qn), keycol, 'tail sentinel' if succ_keyed else 'head', '/'.join(sorted(ins)) or '?')
+        if ins and ins <= want | {'insert'} and ins & want:
+            chk.ok(P3, inst, locstr(walker.node))
+        elif not ins:
+            chk.unknown(P3, _short(qn), 'no insertion into the result inside the walk loop recognised')
+        else:
+            chk.violation(P3, '%s|walk direction' % _short(qn), locstr(walker.node),
+                          inst + ': a walk from the tail visits the last item first, so appending yields the listing '
+                          'in reverse order (prepending is required), and vice versa')
     # add_back: new entry stored with the no-next sentinel, previous tail relinked, one transaction
     for f, ip, ret in evaluate(prog, cg, eff, V2 + 'playlist_entity_table::add_back'):
         chk.analysed(f)
